@@ -64,7 +64,18 @@ func c06Profile(r *rand.Rand, i int) (*lib.ProfileDoc, *lib.Graph) {
 			body = lib.AndE{Items: []lib.Expr{pc, lib.NotE{Item: pc}}}
 		}
 		name := fmt.Sprintf("val%d", v)
-		prof.Validations = append(prof.Validations, lib.Validation{Name: name, TargetClass: "ex." + target, Message: "m " + name, Body: body})
+		val := lib.Validation{Name: name, TargetClass: "ex." + target, Message: "m " + name, Body: body}
+		switch r.Intn(8) { // messages that are not YAML strings
+		case 0:
+			val.MessageRaw = lib.Int(404)
+		case 1:
+			val.MessageRaw = lib.Bool(true)
+		case 2:
+			val.MessageRaw = lib.RawScalar(pick(r, "2024-02-29", "null", "~", "1.5", "0x1F"))
+		case 3:
+			val.MessageRaw = lib.StrSeq("a", "b")
+		}
+		prof.Validations = append(prof.Validations, val)
 		switch r.Intn(3) {
 		case 0:
 			prof.Violation = append(prof.Violation, name)
